@@ -452,6 +452,31 @@ def native(seed=0, reduced=False):
                 bad.append(dict(what="after an in-place translation the dual sites are not the circumcentres of the (moved) triangles"))
     except Exception as e:  # noqa
         bad.append(dict(what=f"Device.translate(inplace=True) with a mesh raised {type(e).__name__}: {str(e)[:100]}"))
+    # Mesh.smooth returns a NEW mesh: the mesh it is called on keeps sites, edge vectors / lengths / centres, dual sites and areas that belong together
+    try:
+        d1 = tdgl.Device("d", layer=layer, film=tdgl.Polygon("film", points=box(4, 2)), holes=[tdgl.Polygon("h", points=circle(0.4))], length_units="um")
+        d1.make_mesh(max_edge_length=0.6, smooth=0)
+        m_src = d1.mesh
+        m_new = m_src.smooth(3)
+        for tag_, mm_ in (("the mesh smooth() was called on", m_src), ("the mesh returned by smooth()", m_new)):
+            n += 1
+            em_ = mm_.edge_mesh
+            P_ = mm_.sites
+            mid_ = 0.5 * (P_[em_.edges[:, 0]] + P_[em_.edges[:, 1]])
+            vec_ = P_[em_.edges[:, 1]] - P_[em_.edges[:, 0]]
+            cc_ = P_[mm_.elements]
+            r_ = np.linalg.norm(cc_ - mm_.dual_sites[:, None, :], axis=2)
+            probs = []
+            if not np.allclose(em_.centers, mid_, atol=1e-9):
+                probs.append("edge centres are not the midpoints of the site pairs")
+            if not np.allclose(em_.directions, vec_, atol=1e-9) or not np.allclose(em_.edge_lengths, np.linalg.norm(vec_, axis=1), atol=1e-9):
+                probs.append("edge vectors / lengths are not those of the site pairs")
+            if not np.allclose(r_, r_[:, :1], rtol=1e-7, atol=1e-9):
+                probs.append("dual sites are not the circumcentres of the triangles")
+            if probs:
+                bad.append(dict(what=f"after Mesh.smooth(3), {tag_} is not self-consistent: " + "; ".join(probs)))
+    except Exception as e:  # noqa
+        bad.append(dict(what=f"Mesh.smooth raised {type(e).__name__}: {str(e)[:100]}"))
     if not reduced:
         for k in range(10):
             centre = tuple(rng.uniform(-20, 20, 2))
